@@ -18,5 +18,8 @@ CHECKS = {
     "C10": dict(level="model_checking", technique=SE,
                 text="Every public view of Simulation (variables, fluxes, args, right-hand side, producers/consumers scaled or not, combined, new_y0, three normalisation shapes, split or concatenated) is executed on results whose states, time labels, per-segment parameters and normalisers are z3 terms; each cell is proved equal to the evaluator at that row's state under that segment's parameters (after the model's parameters were changed again), for every ordered pair/triple of reads.",
                 note=NOTE),
+    "C14": dict(level="model_checking", technique=SE + "; ODE solutions are uninterpreted flow functions",
+                text="make_protocol, simulate_protocol and simulate_protocol_time_course run on symbolic step values, requested time points and (for simulate_protocol) a symbolic earlier end; z3 proves per path that integrator call k covers exactly step k's interval with step k's values as flow parameters, that the index is {start} ∪ requested points inside ∪ boundaries, each once and increasing, and that fluxes inside a step use that step's values.",
+                note=NOTE + " Durations are concrete dyadic numbers (pandas Timedelta is C-level)."),
 }
 NOT_APPLICABLE = {}
